@@ -159,6 +159,10 @@ func query(src pcache.ProviderSource, preload bool, q string, lookup []byte) (ob
 		ob.Err = "new: " + err.Error()
 		return
 	}
+	return collect(pc, q, lookup)
+}
+
+func collect(pc *pcache.ProviderCache, q string, lookup []byte) (ob observed) {
 	res, err := pc.GetResults(context.Background(), ids.Peer("m"), []byte(q), lookup)
 	if err != nil {
 		ob.Err = err.Error()
@@ -179,6 +183,37 @@ func query(src pcache.ProviderSource, preload bool, q string, lookup []byte) (ob
 		ob.Res = append(ob.Res, entry{ID: n, MD: classOf(r.Metadata, lookup)})
 	}
 	return
+}
+
+// queryAfterRefresh: the cache first holds an earlier record of the provider (other extended providers, chain-level and for the
+// queried context), then a refresh brings the case's record with a later advertisement time; the results must be those of the
+// new record alone.
+func queryAfterRefresh(pi *model.ProviderInfo, q string, lookup []byte) (ob observed) {
+	defer func() {
+		if e := recover(); e != nil {
+			ob.Panic = fmt.Sprint(e)
+		}
+	}()
+	earlier := &model.ProviderInfo{AddrInfo: addrInfo("m"), LastAdvertisementTime: "2023-12-31T00:00:00Z", ExtendedProviders: &model.ExtendedProviders{
+		Providers: []peer.AddrInfo{addrInfo("y")}, Metadatas: [][]byte{otherMD},
+		Contextual: []model.ContextualExtendedProviders{{Override: true, ContextID: "c1", Providers: []peer.AddrInfo{addrInfo("x"), addrInfo("y")}, Metadatas: [][]byte{otherMD, nil}}},
+	}}
+	src := &staticSource{earlier}
+	pc, err := pcache.New(pcache.WithSource(src), pcache.WithPreload(true), pcache.WithRefreshInterval(0))
+	if err != nil {
+		ob.Err = "new: " + err.Error()
+		return
+	}
+	if _, err := pc.GetResults(context.Background(), ids.Peer("m"), []byte(q), lookup); err != nil {
+		ob.Err = "first lookup: " + err.Error()
+		return
+	}
+	src.info = pi
+	if err := pc.Refresh(context.Background()); err != nil {
+		ob.Err = "refresh: " + err.Error()
+		return
+	}
+	return collect(pc, q, lookup)
 }
 
 func expectClass(c string) string {
@@ -294,6 +329,13 @@ func Run(args []string) *rep.Report {
 							r.Diverge(rep.Divergence{Key: key, Case: tc, Expected: tc.Out, Observed: ob,
 								Detail: fmt.Sprintf("variant nilEmptyLists=%v preload=%v", nilEmpty, preload)})
 						}
+					}
+				}
+				{
+					ob := queryAfterRefresh(build(tc.Rec, true), tc.Q, lookup)
+					n++
+					if key, ok := judge(tc, ob); !ok {
+						r.Diverge(rep.Divergence{Key: key, Case: tc, Expected: tc.Out, Observed: ob, Detail: "variant refreshed: the cache held an earlier record of the provider"})
 					}
 				}
 				if *httpEvery > 0 && j.idx%*httpEvery == 0 {
